@@ -17,5 +17,5 @@ CONSTANTS
   FBits = 3
   FMaxTicks = 2
   FBug = "none"
-  FFixed = {"alternatives_not_conjoined"}
+  FFixed = {"alternatives_not_conjoined", "fresh_fake_nodes"}
 CHECK_DEADLOCK FALSE
